@@ -520,7 +520,13 @@ class sptensor:
             if self.vals.size == 0:
                 # as in the other branches, a slice without stored entries collapses to 0
                 return 0.0
-            result = function_handle(self.vals.reshape(-1))
+            vals = self.vals.reshape(-1)
+            if vals.dtype == np.bool_ or np.issubdtype(vals.dtype, np.integer):
+                # (combined in the platform integer, as in the other branches: a sum of
+                # values of a narrow integer type need not fit that type)
+                wide = np.uint if np.issubdtype(vals.dtype, np.unsignedinteger) else np.int_
+                vals = vals.astype(np.result_type(vals.dtype, wide))
+            result = function_handle(vals)
             if isinstance(result, np.generic):
                 result = result.item()
             return result
